@@ -106,6 +106,7 @@ theorem services_leaves : Leaves (keeps ServicesInv) where
   forget := fun _ _ h => h
   expire := fun _ h => h
   expireSome := fun _ _ h => h
+  setPolicy := fun _ _ h => h
   acquire := by
     intro t c n flags _ h
     unfold acquire
